@@ -4,7 +4,10 @@
 mod chacha;
 mod distr;
 mod enumr;
+mod fills;
 mod mockutil;
+mod readmock;
+mod serde_rt;
 mod util;
 mod word;
 
@@ -30,6 +33,11 @@ fn dispatch(req: &Req) -> R<String> {
 		"enum" => enumr::enumerate(req),
 		"chacha" => chacha::chacha(req),
 		"slpblock" => chacha::slpblock(req),
+		"serde" => serde_rt::serde(req),
+		"fillb" => fills::fillb(req),
+		"read" => readmock::read(req),
+		"mock" => readmock::mock(req),
+		"serdist" => serde_rt::serdist(req),
 		_ => Err(Bad),
 	}
 }
